@@ -1,5 +1,5 @@
 """C13 - configured resource limits are never exceeded.  DESIGN.md C13.1-C13.3."""
-from engine.cfg import (reach_from, Explorer, estr, is_call, is_int, is_member, is_ref, strip_addr, walk,
+from engine.cfg import (reach_from, Explorer, estr, norm_cond, is_call, is_int, is_member, is_ref, strip_addr, walk,
                         written_lvalues)
 from engine.facts import AnalysisBroken
 from engine import lib
@@ -647,6 +647,82 @@ def c13_2c(ck, prog):
             r.ok('%s:balanced' % f.name, {'states': ex.nstates})
 
 
+def c13_8(ck, prog):
+    """The <limit name="..."> table: names and BusLimits fields correspond one to one."""
+    r = ck.rule('C13.8', 'the <limit> names and the limit fields correspond one to one in set_limit: every name branch '
+                'stores the value in exactly one BusLimits field, no field is stored under two names, and every '
+                'BusLimits field can be configured by some name', 'TAB',
+                breaks='configuring one limit silently changes another: the administrator\'s per-user connection '
+                'limit overwrites the global one and itself stays at its default, so more connections per user are '
+                'accepted than configured', floor=15)
+    CFGP = 'bus/config-parser.c'
+    fn = prog.fn('set_limit', CFGP)
+    npred = {}
+    for bid, blk in fn.blocks.items():
+        for s2 in blk['succs']:
+            if s2 is not None:
+                npred[s2] = npred.get(s2, 0) + 1
+    by_name, by_field = {}, {}
+    for bid, blk in fn.blocks.items():
+        t = blk.get('term')
+        if not t or t.get('cond') is None or len(blk['succs']) != 2:
+            continue
+        a, sense = norm_cond(t['cond'])
+        lit = None
+        if a is not None and a[0] == 'cmp' and a[1] == '==' and is_int(a[3], 0) and is_call(a[2], 'strcmp'):
+            call, eq_edge = a[2], (0 if sense else 1)
+        elif a is not None and a[0] == 'truthy' and is_call(a[1], 'strcmp'):
+            call, eq_edge = a[1], (1 if sense else 0)
+        else:
+            continue
+        for x in call['args']:
+            if x.get('k') == 'str' or (x.get('k') in ('cast', 'paren') and x.get('e', {}).get('k') == 'str'):
+                lit = (x if x.get('k') == 'str' else x['e'])['v']
+        if lit is None or not any(is_ref(x) and x.get('id') == fn.params[1]['id'] for x in call['args']):
+            continue
+        # the region of this branch: blocks reached from the equal edge before control joins other branches
+        seen, todo = set(), [blk['succs'][eq_edge]]
+        while todo:
+            b2 = todo.pop()
+            if b2 is None or b2 in seen or npred.get(b2, 0) > 1:
+                continue
+            seen.add(b2)
+            todo += fn.blocks[b2]['succs']
+        fields = []
+        for b2 in seen:
+            for ev in fn.blocks[b2]['events']:
+                for lhs, how, rhs in written_lvalues(ev):
+                    if lhs.get('k') == 'member' and lhs.get('rec') == 'BusLimits':
+                        fields.append((lhs['field'], ev['line']))
+        by_name[lit] = (fields, t['line'])
+        for f, line in fields:
+            by_field.setdefault(f, []).append((lit, line))
+    if len(by_name) < 15:
+        raise AnalysisBroken('set_limit: only %d name branches recognised' % len(by_name))
+    for lit, (fields, line) in sorted(by_name.items()):
+        key = 'set_limit:name:%s' % lit
+        if len({f for f, _ in fields}) != 1:
+            r.violation(key, fn.name, CFGP, line, 'the branch for <limit name="%s"> stores %s' % (
+                lit, 'nothing in the limits' if not fields else 'several fields: ' + ', '.join(sorted({f for f, _ in fields}))))
+        else:
+            r.ok(key, {'field': fields[0][0]})
+    for f, uses in sorted(by_field.items()):
+        key = 'set_limit:field:%s' % f
+        if len({u[0] for u in uses}) > 1:
+            r.violation(key, fn.name, CFGP, uses[-1][1], 'the limit field %s is stored under several names: %s' % (
+                f, ', '.join('"%s"' % u[0] for u in uses)))
+        else:
+            r.ok(key)
+    rec = prog.record('BusLimits')
+    for fld in rec['fields']:
+        key = 'set_limit:configurable:%s' % fld['name']
+        if fld['name'] not in by_field:
+            r.violation(key, fn.name, CFGP, fn.line, 'no <limit> name stores the limit field %s: it keeps its default '
+                        'whatever the configuration says' % fld['name'])
+        else:
+            r.ok(key)
+
+
 def run(ck):
     ck.explanation = (
         'Static rules over bus/driver.c, bus/services.c, bus/connection.c, bus/bus.c, bus/signals.c and '
@@ -665,6 +741,7 @@ def run(ck):
         c13_2(ck, prog)
         c13_2c(ck, prog)
         c13_3(ck, prog)
+        c13_8(ck, prog)
         r = ck.rule('C13.6', 'the counters\' containers live as long as the bus: the per-user connection table, the '
                     'pending-reply list and the connections object are created once and released only by their '
                     'destructors', 'WHO',
